@@ -652,10 +652,17 @@ func (x *Exec) rangeIter(v value, t types.Type) iter {
 				r = x.choose(n, "map-order")
 			} else {
 				// one rotation offset per path, shared by all maps (mode 2 = independent per range)
+				// (choice 3: successive ranges start at successive offsets — two walks over one unchanged map
+				// need not agree in Go)
 				if x.mapRot < 0 {
-					x.mapRot = x.choose(3, "map-rotation")
+					x.mapRot = x.choose(4, "map-rotation")
 				}
-				r = x.mapRot % n
+				if x.mapRot == 3 {
+					r = x.mapWalks % n
+					x.mapWalks++
+				} else {
+					r = x.mapRot % n
+				}
 			}
 			rot := make([]*mapEntry, 0, n)
 			rot = append(rot, snap[r:]...)
